@@ -102,6 +102,15 @@ def run(chk):
     handrules.emit(chk, recs, "C05")
     from . import c07
     c07.mm_handlers(chk, r1="C05.R14", r2="C05.R14", r5="C05.R14")
+    # linear: the typing of QTensorLinear.forward, including a 1-D input (no batch dimension)
+    from ..report import AliasedCheck
+    hn = {}
+    for nm in c07.HELPERS:
+        try:
+            hn[nm] = repo.func(nm)[1]
+        except AnalysisError:
+            pass
+    c07.linear_forward(AliasedCheck(chk, {"C07.R1": "C05.R14", "C07.R2": "C05.R14", "C07.R6": "C05.R14"}), hn)
     # in-place variants
     from ..core import paths_of, positional_params as _pp
     n_ip = 0
